@@ -1,13 +1,13 @@
 (* C05 — address pools neither leak nor miscount.  Statements only; proofs in Proofs/*.v. *)
 From Coq Require Import NArith List.
-From Verif Require Import Base.Word Model.PoolMap Model.Geometry Model.PoolSpec Model.Bitmap
-  Proofs.GeometryProofs Proofs.BitmapProofs.
+From Verif Require Import Base.Word Model.PoolMap Model.Geometry Model.PoolSpec Model.Bitmap Model.Epoch
+  Proofs.GeometryProofs Proofs.BitmapProofs Proofs.EpochProofs.
 Import ListNotations.
 Local Open Scope N_scope.
 
 (* ---------- bitmap allocator, every history, every geometry below 2^64 units ---------- *)
 Theorem C05_bitmap_exhausted_only_if_full_partial : forall g ops h, g_total g < W64 ->
-  outp (brun g ops) (Alloc h) = OErr 1 ->
+  BitmapProofs.outp (brun g ops) (Alloc h) = OErr 1 ->
   forall i, i < g_total g -> exists h', bholds g ops h' (addr_of_index g i).
 Proof. exact bitmap_exhausted_only_if_full. Qed.
 Print Assumptions C05_bitmap_exhausted_only_if_full_partial.
@@ -15,30 +15,30 @@ Print Assumptions C05_bitmap_exhausted_only_if_full_partial.
 (* without the guard: a pool of 2^64 units (a /64 handing out /128s) is "exhausted" while empty,
    because totalPrefixes.Uint64() is 0 (known finding K05b, marker 504) *)
 Theorem C05_bitmap_exhausted_only_if_full_refuted :
-  geo_wf huge_geo /\ outp (brun huge_geo []) (Alloc 0) = OErr 1 /\ (forall h u, ~ bholds huge_geo [] h u).
+  geo_wf huge_geo /\ BitmapProofs.outp (brun huge_geo []) (Alloc 0) = OErr 1 /\ (forall h u, ~ bholds huge_geo [] h u).
 Proof. exact bitmap_exhausted_only_if_full_huge_refuted. Qed.
 Print Assumptions C05_bitmap_exhausted_only_if_full_refuted.
 
 Theorem C05_bitmap_release_returns : forall g ops h u, bholds g ops h u ->
-  outp (brun g ops) (Release h) = OOk /\ forall h', ~ bholds g (ops ++ [Release h]) h' u.
+  BitmapProofs.outp (brun g ops) (Release h) = OOk /\ forall h', ~ bholds g (ops ++ [Release h]) h' u.
 Proof. exact bitmap_release_frees. Qed.
 Print Assumptions C05_bitmap_release_returns.
 
 Theorem C05_bitmap_free_unit_is_served_partial : forall g ops h i, g_total g < W64 -> i < g_total g ->
-  (forall h', ~ bholds g ops h' (addr_of_index g i)) -> exists u, outp (brun g ops) (Alloc h) = OUnit u.
+  (forall h', ~ bholds g ops h' (addr_of_index g i)) -> exists u, BitmapProofs.outp (brun g ops) (Alloc h) = OUnit u.
 Proof. exact bitmap_free_unit_served. Qed.
 Print Assumptions C05_bitmap_free_unit_is_served_partial.
 
 (* the reported figures are the true counts (after fix 46ed00d; before it, re-applying one record
    twice made the allocated figure exceed the number of holders) *)
 Theorem C05_bitmap_stats_exact_partial : forall g ops, g_total g < W64 ->
-  outp (brun g ops) Stats =
+  BitmapProofs.outp (brun g ops) Stats =
     OStats (asize (b_alloc (brun g ops))) (g_total g) (asize (b_alloc (brun g ops)) * 100) (g_total g).
 Proof. exact bitmap_stats_exact_small. Qed.
 Print Assumptions C05_bitmap_stats_exact_partial.
 
 Theorem C05_bitmap_stats_mod64 : forall g ops,
-  outp (brun g ops) Stats =
+  BitmapProofs.outp (brun g ops) Stats =
     let al := wrap64 (asize (b_alloc (brun g ops))) in let tot := wrap64 (g_total g) in
     if tot =? 0 then OStats al tot 0 1 else OStats al tot (al * 100) tot.
 Proof. exact bitmap_stats_exact. Qed.
@@ -50,6 +50,70 @@ Print Assumptions C05_bitmap_holders_le_units.
 
 Example C05_bitmap_nonvacuous :
   let g := {| g_bits := 32; g_base := 167772160; g_ppl := 31; g_pl := 32 |} in
-  g_total g < W64 /\ outp (brun g [Alloc 1; Alloc 2]) (Alloc 3) = OErr 1 /\
-  outp (brun g [Alloc 1; Alloc 2; Release 1]) (Alloc 3) = OUnit 167772160.
+  g_total g < W64 /\ BitmapProofs.outp (brun g [Alloc 1; Alloc 2]) (Alloc 3) = OErr 1 /\
+  BitmapProofs.outp (brun g [Alloc 1; Alloc 2; Release 1]) (Alloc 3) = OUnit 167772160.
 Proof. cbv zeta. split; [vm_compute; reflexivity|split; vm_compute; reflexivity]. Qed.
+
+(* ---------- epoch / lease allocator ---------- *)
+(* renew_protects, full (grace below 256: the code compares byte(gracePeriod)): a lease renewed now
+   survives ANY later operations that contain at most grace AdvanceEpoch steps and no Release by the
+   holder itself *)
+Theorem C05_epoch_renew_protects : forall base ppl pl grace ops h i more,
+  aget h (e_subs (erun base ppl pl grace ops)) = Some i ->
+  e_grace (erun base ppl pl grace ops) < 256 ->
+  forallb (fun o => negb (is_rel h o)) more = true ->
+  advances more <= e_grace (erun base ppl pl grace ops) ->
+  aget h (e_subs (erun base ppl pl grace (ops ++ Renew h :: more))) = Some i.
+Proof. exact epoch_renew_protects. Qed.
+Print Assumptions C05_epoch_renew_protects.
+
+(* exhausted_only_if_full: refuted by the 2-bit generation wrap (known finding K05d, marker 502) ... *)
+Theorem C05_epoch_wrap_refuted :
+  EpochProofs.outp (erun w_base 30 32 1 [Advance; Advance]) (Alloc 0) = OErr 1 /\
+  e_subs (erun w_base 30 32 1 [Advance; Advance]) = [].
+Proof. exact epoch_wrap_refuted. Qed.
+Print Assumptions C05_epoch_wrap_refuted.
+
+Theorem C05_epoch_release_then_two_advances_refuted :
+  let s := erun w_base 30 32 1 [Alloc 1; Alloc 2; Release 1; Advance; Renew 2; Advance; Renew 2] in
+  EpochProofs.outp s (Alloc 3) = OErr 1 /\ asize (e_subs s) = 1 /\ aget 1 (e_subs s) = None.
+Proof. exact epoch_release_then_two_advances_refuted. Qed.
+Print Assumptions C05_epoch_release_then_two_advances_refuted.
+
+(* ... and by grace >= 3 (K05e, marker 503): for the first eight epochs (a vm_compute sweep, the bound
+   is part of the statement) an empty pool is exhausted *)
+Theorem C05_epoch_grace3_never_free_refuted :
+  forall n, let s := fold_left EpochProofs.next (repeat Advance n) (einit w_base 30 32 3) in
+  (n <= 8)%nat -> EpochProofs.outp s (Alloc 0) = OErr 1 /\ e_subs s = [].
+Proof. exact epoch_grace3_never_free_refuted. Qed.
+Print Assumptions C05_epoch_grace3_never_free_refuted.
+
+Theorem C05_epoch_stats_refuted :
+  EpochProofs.outp (erun w_base 30 32 1 [Advance; Advance]) Stats = OStats 2 2 2 2 /\
+  e_subs (erun w_base 30 32 1 [Advance; Advance]) = [].
+Proof. exact epoch_stats_wrap_refuted. Qed.
+Print Assumptions C05_epoch_stats_refuted.
+
+(* ... and proved under the decidable guard [ages_ok]: grace = 1 and no usable slot's true age
+   (epochs since its tag was written; Release writes "two epochs ago", construction too) is 4 or more *)
+Theorem C05_epoch_exhausted_only_if_full_partial : forall base ppl pl grace ops h,
+  ages_ok (erun base ppl pl grace ops) = true ->
+  EpochProofs.outp (erun base ppl pl grace ops) (Alloc h) = OErr 1 ->
+  forall i, usable_slot (erun base ppl pl grace ops) i = true -> i < e_total (erun base ppl pl grace ops) ->
+  exists h', aget h' (e_subs (erun base ppl pl grace ops)) = Some i.
+Proof. exact epoch_exhausted_run. Qed.
+Print Assumptions C05_epoch_exhausted_only_if_full_partial.
+
+Theorem C05_epoch_release_returns_partial : forall base ppl pl grace ops h i,
+  e_grace (erun base ppl pl grace ops) = 1 -> aget h (e_subs (erun base ppl pl grace ops)) = Some i ->
+  EpochProofs.outp (erun base ppl pl grace ops) (Release h) = OOk /\
+  aget i (e_rev (EpochProofs.next (erun base ppl pl grace ops) (Release h))) = None /\
+  slot_free (EpochProofs.next (erun base ppl pl grace ops) (Release h)) i = true /\
+  (forall h', aget h' (e_subs (EpochProofs.next (erun base ppl pl grace ops) (Release h))) <> Some i).
+Proof. exact epoch_release_run. Qed.
+Print Assumptions C05_epoch_release_returns_partial.
+
+Example C05_epoch_guard_satisfiable :
+  let s := erun w_base 30 32 1 [Alloc 1; Alloc 2; Advance; Renew 1; Release 2; Alloc 3; Advance; Renew 1; Renew 3] in
+  ages_ok s = true /\ EpochProofs.outp s (Alloc 4) = OErr 1 /\ asize (e_subs s) = 2.
+Proof. exact epoch_guard_example. Qed.
